@@ -16,6 +16,8 @@ def get_xorkey(data: bytes) -> int:
 
 
 def apply_xor_key(xorkey: int, data: bytes, node: Node, new_node_type: str) -> Node:
+    if xorkey > 0xFF:
+        return node  # Not a single byte key, nothing to apply
     data = bytes(b ^ xorkey for b in data)
     node.children.append(
         Node(
